@@ -12,7 +12,7 @@
 (* A program is a construction history: the store starts with the declared *)
 (* leaves (forms, cofunctions, coefficients, matrices, coarguments,        *)
 (* arguments) and every action appends one node (Add, Sub, Neg, Scale,     *)
-(* Action, Adjoint, Zero, Derivative).                                     *)
+(* Action, Adjoint, Zero, Derivative, WSum, Repl).                         *)
 (*                                                                         *)
 (* The meaning of a node is defined by CONTRACTION only:                   *)
 (*   Action(A, B)  contracts the LAST slot of A with the FIRST slot of B   *)
@@ -26,6 +26,15 @@
 (*                 guard ensures); a new slot in the space of the variable *)
 (*                 with the next free number, or no new slot when the      *)
 (*                 direction is a coefficient.                             *)
+(*   WSum          w1 A + w2 B + w3 C with pairwise different weights: the *)
+(*                 weighted sum of the three tensors (a FormSum of three   *)
+(*                 components); nothing is said about the order or the     *)
+(*                 grouping in which ufl keeps the components              *)
+(*   Repl          ufl.replace(A, {q: r}): the tensor of A in the          *)
+(*                 environment in which q has the value of r               *)
+(* Every pass that maps over integrands / components (expand_derivatives,  *)
+(* apply_algebra_lowering, map_integrands, ...) denotes the identity on    *)
+(* the map: the prediction of a node is also the prediction of its image.  *)
 (* The module knows nothing of ufl's simplifications.  Guards mirror the   *)
 (* compositions ufl refuses by design (cited at the guard).                *)
 (***************************************************************************)
@@ -36,7 +45,13 @@ CONSTANTS MaxOps,    \* number of operations of a program
           Weights,   \* indices into WeightSeq offered to Scale
           ZeroSel,   \* indices into ZeroSigs offered to Zero
           DerCoefs,  \* coefficient symbols one may differentiate with respect to
-          DumpOn     \* TRUE: print every live program as JSON
+          DumpOn,    \* TRUE: print every live program as JSON
+          SumSel,    \* indices into WeightTriples offered to WSum ({}: no weighted sums)
+          ReplSel,   \* indices into ReplPairs offered to Repl ({}: no replacement)
+          SumMode,   \* TRUE: only histories  components -> one weighted sum -> <= PostMax operations
+          CompOps,   \* SumMode: the operations that may build the components ("act", "adj", ...)
+          PostOps,   \* SumMode: the operations that may follow the weighted sum
+          PostMax    \* SumMode: number of operations after the weighted sum
 
 -----------------------------------------------------------------------------
 (* Spaces, slots, index tuples *)
@@ -178,7 +193,8 @@ LeafT(l, env) ==
     [] l.k \in {"coarg", "arg"} -> [s \in Idx(ar) |-> IF s[1] = s[2] THEN Q1 ELSE Q0]
 
 LeafNode(l) ==
-  [op |-> "leaf", a |-> 0, b |-> 0, w |-> 0, q |-> 0, dir |-> 0, z |-> 0, lk |-> l.k, id |-> l.id,
+  [op |-> "leaf", a |-> 0, b |-> 0, c |-> 0, w |-> 0, w2 |-> 0, w3 |-> 0, q |-> 0, dir |-> 0, z |-> 0,
+   lk |-> l.k, id |-> l.id,
    kind |-> LeafKind(l), args |-> LeafArgs(l),
    may |-> CASE l.k \in {"coef", "cof"} -> {l.id} [] l.k = "form" -> FormCoefs(l.id) [] OTHER -> {},
    deg |-> CASE l.k \in {"coef", "cof"} -> [Deg0 EXCEPT ![l.id] = 1]
@@ -187,6 +203,12 @@ LeafNode(l) ==
    isco |-> l.k = "coarg", hasform |-> l.k = "form"]
 
 WeightSeq == <<QI(0), QI(1), QI(-1), QI(2), QN(1, 2)>>
+\* weights of the three-component sums: non-zero, dyadic (exact as Python floats); a triple
+\* offered to WSum has pairwise different entries, and all but the third have no unit weight
+SumWeightSeq == <<QI(3), QI(-2), QN(1, 2), QI(5), QN(-3, 2), QI(-4), QI(1)>>
+WeightTriples == << <<1, 2, 3>>, <<4, 5, 6>>, <<7, 1, 2>>, <<3, 6, 4>> >>
+\* replace(A, {q: r}): f -> f2, f2 -> f, c -> c2, c2 -> c (same space, same kind)
+ReplPairs == << <<1, 2>>, <<2, 1>>, <<4, 5>>, <<5, 4>> >>
 ZeroSigs == << <<>>, <<Slot(0, SV, FALSE)>>, <<Slot(0, SW, FALSE)>>,
                <<Slot(0, SV, FALSE), Slot(1, SV, FALSE)>>, <<Slot(0, SV, FALSE), Slot(1, SW, FALSE)>>,
                <<Slot(0, SV, FALSE), Slot(1, SV, TRUE)>> >>
@@ -228,6 +250,10 @@ T(st, i, env) ==
     [] nd.op = "act"   -> TAct(st[nd.a].args, T(st, nd.a, env), st[nd.b].args, T(st, nd.b, env))
     [] nd.op = "adj"   -> TAdj(T(st, nd.a, env))
     [] nd.op = "zero"  -> TZero(nd.args)
+    [] nd.op = "wsum"  -> TAdd(TAdd(TScale(SumWeightSeq[nd.w], T(st, nd.a, env)),
+                                    TScale(SumWeightSeq[nd.w2], T(st, nd.b, env))),
+                               TScale(SumWeightSeq[nd.w3], T(st, nd.c, env)))
+    [] nd.op = "repl"  -> T(st, nd.a, [env EXCEPT ![nd.q] = env[nd.dir]])
     [] nd.op = "der"   ->
          \* D_q[h] A = (A(q + h) - A(q - h)) / 2, exact because deg_q(A) <= 2
          LET q == nd.q
@@ -252,10 +278,31 @@ vars == <<store, tv, tp>>
 LeafSeq == SelectSeq([i \in DOMAIN AllLeaves |-> [i |-> i, l |-> AllLeaves[i]]], LAMBDA e : e.i \in LeafSel)
 NL == Cardinality(LeafSel)
 NOps(st) == Len(st) - NL
-Refs(nd) == {nd.a, nd.b} \ {0}
+Refs(nd) == {nd.a, nd.b, nd.c} \ {0}
 Roots(st) == {k \in (NL + 1)..Len(st) : \A m \in (k + 1)..Len(st) : k \notin Refs(st[m])}
-\* no dead code: every operation must still be able to become part of the final node
-Viable(st) == Cardinality(Roots(st)) - 1 <= MaxOps - NOps(st)
+HasSum(st) == \E k \in DOMAIN st : st[k].op = "wsum"
+SumAt(st) == CHOOSE k \in DOMAIN st : st[k].op = "wsum"
+\* strict lexicographic order on integer sequences of the same length
+LexLess(s, t) == \E i \in DOMAIN s : s[i] < t[i] /\ \A j \in 1..(i - 1) : s[j] = t[j]
+OpCode(o) == CASE o = "add" -> 1 [] o = "sub" -> 2 [] o = "neg" -> 3 [] o = "scale" -> 4
+               [] o = "act" -> 5 [] o = "adj" -> 6 [] o = "zero" -> 7 [] o = "der" -> 8
+               [] o = "wsum" -> 9 [] o = "repl" -> 10
+OpKey(nd) == <<OpCode(nd.op), nd.a, nd.b, nd.w, nd.q, nd.dir, nd.z>>
+\* no dead code: every operation must still be able to become part of the final node.
+\* SumMode: the components (at most three roots, built by CompOps, independent consecutive ones
+\* in increasing order of their keys: one representative per permutation), then the sum (it merges
+\* up to three roots), then at most PostMax operations out of PostOps
+Viable(st) ==
+  LET n == Len(st) IN
+  IF ~SumMode THEN Cardinality(Roots(st)) - 1 <= MaxOps - NOps(st)
+  ELSE IF HasSum(st)
+       THEN LET left == IF MaxOps - NOps(st) <= PostMax - (n - SumAt(st))
+                        THEN MaxOps - NOps(st) ELSE PostMax - (n - SumAt(st))
+            IN /\ left >= 0 /\ Cardinality(Roots(st)) - 1 <= left
+               /\ n = SumAt(st) \/ st[n].op \in PostOps
+       ELSE /\ Cardinality(Roots(st)) <= 3 /\ NOps(st) < MaxOps
+            /\ st[n].op \in CompOps
+            /\ (n - 1 > NL /\ (n - 1) \notin Refs(st[n])) => LexLess(OpKey(st[n - 1]), OpKey(st[n]))
 
 Init == /\ store = [i \in 1..Len(LeafSeq) |-> LeafNode(LeafSeq[i].l)]
         /\ tv = [i \in 1..Len(LeafSeq) |-> LeafT(LeafSeq[i].l, EnvBase)]
@@ -266,7 +313,8 @@ Init == /\ store = [i \in 1..Len(LeafSeq) |-> LeafNode(LeafSeq[i].l)]
 \* isco: ufl holds the node as a Coargument; hasform: a variational form occurs in the node
 \* (both FALSE unless set with EXCEPT)
 Node(op, a, b, kind, args, may, deg, dif, hasact, idl, isform) ==
-  [op |-> op, a |-> a, b |-> b, w |-> 0, q |-> 0, dir |-> 0, z |-> 0, lk |-> "", id |-> 0,
+  [op |-> op, a |-> a, b |-> b, c |-> 0, w |-> 0, w2 |-> 0, w3 |-> 0, q |-> 0, dir |-> 0, z |-> 0,
+   lk |-> "", id |-> 0,
    kind |-> kind, args |-> args, may |-> may, deg |-> deg, dif |-> dif, hasact |-> hasact, idl |-> idl,
    isform |-> isform, isco |-> FALSE, hasform |-> FALSE]
 Push(nd) == /\ NOps(store) < MaxOps
@@ -365,7 +413,35 @@ Der ==
              EXCEPT !.q = q, !.dir = dir, !.hasform = x.hasform,
                     !.isco = x.op = "leaf" /\ x.lk = "cof" /\ x.id = q /\ dir = 0])
 
-Next == AddSub("add") \/ AddSub("sub") \/ Neg \/ Scale \/ Act \/ Adj \/ Zero \/ Der
+\* w1*x + w2*y + w3*z = FormSum((x, w1), (y, w2), (z, w3)): three different nodes with the same
+\* argument slots, pairwise different weights
+WSum ==
+  \E i, j, k \in DOMAIN store, ws \in SumSel :
+    LET x == store[i]  y == store[j]  z == store[k]  tr == WeightTriples[ws] IN
+    /\ i # j /\ i # k /\ j # k
+    /\ x.kind = "bf" /\ y.kind = "bf" /\ z.kind = "bf"
+    /\ x.args = y.args /\ y.args = z.args
+    /\ Push([Node("wsum", i, j, "bf", x.args, x.may \cup y.may \cup z.may,
+                  DegMax(DegMax(x.deg, y.deg), z.deg), x.dif /\ y.dif /\ z.dif,
+                  x.hasact \/ y.hasact \/ z.hasact, x.idl /\ y.idl /\ z.idl,
+                  x.isform /\ y.isform /\ z.isform)
+             EXCEPT !.c = k, !.w = tr[1], !.w2 = tr[2], !.w3 = tr[3],
+                    !.hasform = x.hasform \/ y.hasform \/ z.hasform])
+\* ufl.replace(A, {q: r}) for a coefficient / cofunction q that occurs in A
+Repl ==
+  \E i \in DOMAIN store, p \in ReplSel :
+    LET x == store[i]  q == ReplPairs[p][1]  r == ReplPairs[p][2] IN
+    /\ x.kind = "bf" /\ q \in x.may
+    /\ Push([Node("repl", i, 0, "bf", x.args, (x.may \ {q}) \cup {r},
+                  [x.deg EXCEPT ![r] = @ + x.deg[q], ![q] = 0], x.dif, x.hasact, x.idl, x.isform)
+             EXCEPT !.q = q, !.dir = r, !.hasform = x.hasform, !.isco = x.isco])
+
+NextAll == AddSub("add") \/ AddSub("sub") \/ Neg \/ Scale \/ Act \/ Adj \/ Zero \/ Der \/ WSum \/ Repl
+\* SumMode: Viable (in Push) admits only CompOps before the sum and counts the operations after it
+NextSum == IF HasSum(store)
+           THEN AddSub("add") \/ AddSub("sub") \/ Neg \/ Scale \/ Act \/ Adj \/ Zero \/ Der \/ Repl
+           ELSE NextAll
+Next == IF SumMode THEN NextSum ELSE NextAll
 Spec == Init /\ [][Next]_vars
 
 -----------------------------------------------------------------------------
@@ -446,13 +522,12 @@ DerivativeSanity ==
 -----------------------------------------------------------------------------
 (* The table handed to the conformance check: one JSON line per live program.
    [ops, nodes]
-     ops    = [[opcode, a, b, w, q, dir, z], ...]   operands: index into the store (leaves first)
+     ops    = [[opcode, a, b, w, q, dir, z, c, w2, w3], ...]   operands a, b, c: index into the
+              store (leaves first); wsum: weights w, w2, w3 index SumWeightSeq; repl: q -> dir
      nodes  = [[kind, args, may, must, undefined, tensor], ...]   one prediction per operation
-     opcode = 1 add 2 sub 3 neg 4 scale 5 act 6 adj 7 zero 8 der
+     opcode = 1 add 2 sub 3 neg 4 scale 5 act 6 adj 7 zero 8 der 9 wsum 10 repl
      args   = [[n, sp, du], ...]      tensor = [[num, den], ...] in row-major order *)
-OpCode(o) == CASE o = "add" -> 1 [] o = "sub" -> 2 [] o = "neg" -> 3 [] o = "scale" -> 4
-               [] o = "act" -> 5 [] o = "adj" -> 6 [] o = "zero" -> 7 [] o = "der" -> 8
-EncOp(nd) == <<OpCode(nd.op), nd.a, nd.b, nd.w, nd.q, nd.dir, nd.z>>
+EncOp(nd) == <<OpCode(nd.op), nd.a, nd.b, nd.w, nd.q, nd.dir, nd.z, nd.c, nd.w2, nd.w3>>
 EncArgs(ar) == [i \in DOMAIN ar |-> <<ar[i].n, ar[i].sp, IF ar[i].du THEN 1 ELSE 0>>]
 \* the prediction for node i: [kind, args, may, must, undefined, tensor]
 \*   must = the coefficients on which the tensor demonstrably depends (it changes when the value
@@ -475,6 +550,7 @@ LeafTable ==
    mats   |-> [m \in 1..6 |-> MatVal(m)],
    consts |-> [A1 |-> A1, A2 |-> A2, A3 |-> A3, K1 |-> K1, B1 |-> B1, B2 |-> B2],
    weights |-> WeightSeq,
+   sumweights |-> SumWeightSeq,
    zeros  |-> [z \in DOMAIN ZeroSigs |-> EncArgs(ZeroSigs[z])]]
 ASSUME PrintT(ToJson(LeafTable))
 =============================================================================
